@@ -38,6 +38,9 @@ pub fn vid_to_key(p: &Program) -> BTreeMap<u32, u32> {
                         m.insert(*v, *k);
                     }
                 }
+                Op::Retain(Pred::ReinsertReject(k, v)) | Op::RetainForce(Pred::ReinsertReject(k, v)) => {
+                    m.insert(*v, *k);
+                }
                 _ => {}
             }
         }
@@ -154,7 +157,11 @@ pub fn linearizability(p: &Program, r: &RunResult, stats: &mut LinStats, flavour
                     }
                     if !rec.keep {
                         let end = log.get(i + 1).map(|n| n.clock).unwrap_or(h.ret);
-                        if set {
+                        let reinserted_by_predicate = matches!(&h.op, Op::Retain(Pred::ReinsertReject(rk, _)) if *rk == rec.k);
+                        if set && reinserted_by_predicate {
+                            // the element was re-inserted (its unit value replaced) after the
+                            // inspection and before the removal attempt: retain must spare it
+                        } else if set {
                             push(rec.k, KKind::ForceRemove, rec.clock, end, true);
                         } else if force {
                             push(rec.k, KKind::ForceRemove, rec.clock, end, false);
@@ -194,7 +201,7 @@ pub fn linearizability(p: &Program, r: &RunResult, stats: &mut LinStats, flavour
                     } else if it.k != NONE {
                         push(it.k, KKind::Observe(it.vid), start, it.clock, false);
                         push(it.k, KKind::ObserveKey(it.kinst), start, it.clock, false);
-                    } else if let Some(&k) = v2k.get(&it.vid) {
+                    } else if let Some(&k) = v2k.get(&it.vid).or_else(|| v2k.get(&(it.vid % 10_000_000))) {
                         push(k, KKind::Observe(it.vid), start, it.clock, false);
                     } else {
                         out.push(v("iterator-unknown-value", format!("t{} op{} iterator yielded value id {} that no operation ever wrote", h.thread, h.idx, it.vid)));
@@ -505,7 +512,7 @@ pub fn iterators(p: &Program, r: &RunResult, st: &mut IterStats) -> Vec<Violatio
                 for it in items {
                     if it.k != NONE {
                         keys.push(it.k);
-                    } else if let Some(&k) = v2k.get(&it.vid) {
+                    } else if let Some(&k) = v2k.get(&it.vid).or_else(|| v2k.get(&(it.vid % 10_000_000))) {
                         keys.push(k);
                     } else {
                         known = false;
@@ -527,7 +534,7 @@ pub fn iterators(p: &Program, r: &RunResult, st: &mut IterStats) -> Vec<Violatio
                     for it in items {
                         if it.k != NONE {
                             cur.keys.push(it.k);
-                        } else if let Some(&k) = v2k.get(&it.vid) {
+                        } else if let Some(&k) = v2k.get(&it.vid).or_else(|| v2k.get(&(it.vid % 10_000_000))) {
                             cur.keys.push(k);
                         } else {
                             cur.keys_known = false;
